@@ -9,3 +9,8 @@ class AbstractYieldOperation(Operation):
     @property
     def arguments(self):
         return tuple(self.operands)
+
+    @property
+    def _operands(self):
+        """xdsl's backing store of the operand list (same object: assignments through either are seen by both)"""
+        return self.operands
